@@ -33,8 +33,8 @@ func c02Failf(format string, args ...interface{}) error {
 // c02Alt collects the alternative outcomes the documentation leaves open (DESIGN Appendix A, rows marked T).
 // The evaluator is run once per combination of choices; the implementation must match one of them.
 type c02Choices struct {
-	DynamicFailureIsNoMatch  bool // xpath_dynamic that fails or is blank: "no match" instead of record failure
-	ArgFailureIgnored        bool // failing argument under ignore_error: nil instead of record failure
+	DynamicFailureIsNoMatch bool // xpath_dynamic that fails or is blank: "no match" instead of record failure
+	ArgFailureIgnored       bool // failing argument under ignore_error: nil instead of record failure
 }
 
 type c02Model struct {
